@@ -34,6 +34,18 @@ def sha(s):
     return hashlib.sha1(s.encode("utf-8")).hexdigest()[:16]
 
 
+def cap_cases(keys, seed, cap, keep=None):
+    """deterministic bounded selection: every key for which keep(key) holds, then the keys with the smallest
+    seeded hashes until `cap` are selected (rustc cannot compile an unbounded number of probe modules)"""
+    import hashlib
+    keys = list(keys)
+    if len(keys) <= cap:
+        return set(keys)
+    must = {k for k in keys if keep and keep(k)}
+    rest = sorted((k for k in keys if k not in must), key=lambda k: hashlib.sha1(f"{seed}|{k}".encode()).digest())
+    return must | set(rest[:max(0, cap - len(must))])
+
+
 def seeded_pick(key, seed, modulo):
     """Deterministic sample selection by hash of case key and seed."""
     h = hashlib.sha1(f"{seed}:{key}".encode()).digest()
@@ -577,6 +589,25 @@ def verdict_crate(name, cases, prelude="", toolchain=None, features=("full",), c
             unattributed.append(dg)
     r.unattributed = unattributed
     return per, r
+
+
+def verdict_crate_sharded(name, cases, nshards=4, **kw):
+    """verdict_crate over `nshards` probe crates built concurrently (rustc's front end is single-threaded, so one big
+    crate of thousands of failing derives is the slow part of a check). Returns the merged per-case dict and the
+    list of BuildResults."""
+    import concurrent.futures as cf
+    cases = list(cases)
+    nshards = max(1, min(nshards, len(cases) // 50 or 1))
+    shards = [cases[i::nshards] for i in range(nshards)]
+
+    def one(i):
+        return verdict_crate(f"{name}_{i}", shards[i], target_dir=os.path.join(BUILD, f"target-{name}-{i}"), **kw)
+    with cf.ThreadPoolExecutor(max_workers=nshards) as ex:
+        res = list(ex.map(one, range(nshards)))
+    per = {}
+    for p, _ in res:
+        per.update(p)
+    return per, [r for _, r in res]
 
 
 def run_case_crate(name, cases, prelude="", toolchain=None, features=("full",), crate_attrs="", max_rounds=6,
